@@ -19,7 +19,8 @@ def main():
     else:
         from . import histsim, runner
         W = runner.worker()
-        log, viols = W.run_ops(rep["ops"], rep["cfg"]["passive"], second=True, cold_seed=rep["cfg"].get("cold_seed"))
+        log, viols = W.run_ops(rep["ops"], rep["cfg"]["passive"], second=True, cold_seed=rep["cfg"].get("cold_seed"),
+                                warn_mode=rep["cfg"].get("warn_mode", "ignore"))
         hit = [v for v in viols if v.oracle == rep["violation_class"]
                and histsim.attributable(rep["property"], v, rep["ops"], log)]
         ok = bool(hit)
